@@ -34,6 +34,7 @@ type Case struct {
 	Dial      string `json:"dial"` // ok | fail | block
 	Acts      []Act  `json:"acts"`
 	SlowClose bool   `json:"slow_close"`
+	DOA       bool   `json:"dead_on_arrival"` // the peer closes every connection right after it is established
 }
 
 func genCase(t *rapid.T) Case {
@@ -47,10 +48,11 @@ func genCase(t *rapid.T) Case {
 		c.Dial = rapid.SampledFrom([]string{"ok", "ok", "ok", "ok", "fail", "block"}).Draw(t, "dial")
 	}
 	c.SlowClose = rapid.IntRange(0, 3).Draw(t, "slow") == 0
+	c.DOA = c.Dial == "block" && rapid.Bool().Draw(t, "doa")
 	n := rapid.IntRange(1, 24).Draw(t, "nacts")
 	c.Acts = append(c.Acts, Act{K: "start"})
 	for i := 0; i < n; i++ {
-		k := rapid.SampledFrom([]string{"start", "start", "start", "start_cancelled", "cancel", "deliver", "deliver", "fault", "fault", "fire", "close", "close_race"}).Draw(t, "k")
+		k := rapid.SampledFrom([]string{"start", "start", "start", "start_cancelled", "cancel", "deliver", "deliver", "fault", "fault", "fire", "close", "close_race", "release_dial"}).Draw(t, "k")
 		a := Act{K: k, J: rapid.IntRange(0, 63).Draw(t, "j")}
 		if k == "fault" {
 			fs := []string{"eof", "readerr", "garbage", "writeerr"}
@@ -94,6 +96,9 @@ func runCase(c Case, ctx *hx.Ctx) *hx.Failure {
 			fc.SetSlowClose(5 * time.Millisecond)
 		}
 		w.Install(cn, fc)
+		if c.DOA {
+			fc.FeedErr(io.EOF)
+		}
 		return nil
 	}
 	// production parameters (they decide the liveness bound)
@@ -248,6 +253,20 @@ func runCase(c Case, ctx *hx.Ctx) *hx.Failure {
 				}
 			} else {
 				env.WaitDials(1, grace)
+			}
+		case "release_dial":
+			// the blocked dial completes now; queries queued on the dialing connection proceed (or fail, if the
+			// peer closes the fresh connection at once) - either way every one of them, and every later call, ends
+			if c.Dial != "block" {
+				continue
+			}
+			openDial()
+			if c.DOA {
+				for _, cl := range pending() {
+					if f := mustEnd(cl, "the dial finished and the peer closed the fresh connection at once"); f != nil {
+						return f
+					}
+				}
 			}
 		case "cancel":
 			p := pending()
@@ -466,11 +485,12 @@ func runCase(c Case, ctx *hx.Ctx) *hx.Failure {
 	}
 	if c.Dial == "block" && env.DialsStarted() > 0 {
 		deadline := time.Now().Add(grace)
-		for time.Now().Before(deadline) && env.DialsCancelled() < env.DialsStarted() {
+		// every dial has either run to completion or had its context cancelled
+		for time.Now().Before(deadline) && env.DialsCancelled()+env.DialsFinished() < env.DialsStarted() {
 			time.Sleep(200 * time.Microsecond)
 		}
-		if env.DialsCancelled() < env.DialsStarted() {
-			return hx.Failf("C07/dial-not-cancelled", "engine=%s: %d dial(s) were in progress at Close, %d had their context cancelled", c.Engine, env.DialsStarted(), env.DialsCancelled())
+		if n := env.DialsStarted() - env.DialsCancelled() - env.DialsFinished(); n > 0 {
+			return hx.Failf("C07/dial-not-cancelled", "engine=%s: %d dial(s) are still blocked after Close (their context was not cancelled)", c.Engine, n)
 		}
 	}
 	if left := quiesce.WaitGone("pkg/upstream/transport.", grace); len(left) > 0 {
@@ -614,4 +634,96 @@ func newConn(dg bool, idle time.Duration, fc *fakenet.Conn) *transport.Tradition
 		max = 4096
 	}
 	return transport.NewDnsConn(transport.TraditionalDnsConnOpts{WithLengthHeader: !dg, IdleTimeout: idle, MaxConcurrentQuery: max}, fc)
+}
+
+// The same ordering question for the non-pipelined transport: the read loop's idle deadline
+// must not replace the wait-reply deadline of the next exchange on the same connection.
+// The read loop's SetReadDeadline is held; an implementation that hands the reply over
+// before setting the idle deadline lets the next exchange start meanwhile.
+func TestDeadlineOrderingReuse(t *testing.T) {
+	man := hx.NewManual(t, true, "ReuseConnTransport with idle timeout 5 min: read loop's idle deadline held while the next exchange starts on the same connection")
+	man.Case("reuse-deadline-ordering", func(ctx *hx.Ctx) *hx.Failure {
+		w := peer.NewWatcher()
+		env := tx.NewEnv(false)
+		env.OnDial = func(cn int, fc *fakenet.Conn) error { w.Install(cn, fc); return nil }
+		eng, err := tx.NewEngine("reuse", env, tx.Opt{IdleTimeout: 5 * time.Minute})
+		if err != nil {
+			return hx.Failf("C07/harness", "%v", err)
+		}
+		defer eng.Close()
+		ex := func(name string, id uint16) chan error {
+			d := make(chan error, 1)
+			go func() { _, err := eng.Exchange(context.Background(), peer.Query(id, name, 16)); d <- err }()
+			return d
+		}
+		d1 := ex("r1.c07.test.", 1)
+		if !w.Wait("r1.c07.test.", 1, grace) {
+			return hx.Failf("C07/harness", "first query not sent")
+		}
+		fc := env.Conn(0)
+		release := fc.HoldSetReadDeadline(1) // the read loop's SetReadDeadline(idle) after the reply
+		w.Answer(w.Seen("r1.c07.test.")[0], 0, nil)
+		// original order: the held call comes before the reply is handed over, so exchange 1 cannot return yet
+		returnedEarly := false
+		select {
+		case err := <-d1:
+			if err != nil {
+				return hx.Failf("C07/harness", "first exchange failed: %v", err)
+			}
+			returnedEarly = true
+		case <-time.After(100 * time.Millisecond):
+		}
+		var d2 chan error
+		if returnedEarly {
+			// the connection is idle again while the read loop has not applied its idle deadline yet
+			d2 = ex("r2.c07.test.", 2)
+			if !w.Wait("r2.c07.test.", 1, grace) {
+				return hx.Failf("C07/harness", "second query not sent")
+			}
+			time.Sleep(2 * time.Millisecond)
+		}
+		release()
+		if !returnedEarly {
+			if err := <-d1; err != nil {
+				return hx.Failf("C07/harness", "first exchange failed: %v", err)
+			}
+			d2 = ex("r2.c07.test.", 2)
+			if !w.Wait("r2.c07.test.", 1, grace) {
+				return hx.Failf("C07/harness", "second query not sent")
+			}
+		}
+		sc := w.Seen("r2.c07.test.")[0].Conn
+		fc2 := env.Conn(sc)
+		fc2.WaitReaderIdle(grace)
+		time.Sleep(2 * time.Millisecond)
+		dl, _ := fc2.ReadDeadline()
+		last := fc2.LastWriteAt()
+		if dl.IsZero() || dl.Sub(last) > 60*time.Second {
+			return hx.Failf("C07/liveness-deadline-too-far", "reuse transport, idle timeout 5 min: a query is waiting on connection %d and the server is silent; the deadline in force is %v after the send (the read loop's idle deadline replaced the wait-reply deadline)", sc, dl.Sub(last).Round(time.Second))
+		}
+		// fire it; the transport may retry the query on a fresh connection, whose deadline is fired as well
+		ended := false
+		for round := 0; round < 6 && !ended; round++ {
+			seen := w.Seen("r2.c07.test.")
+			cfc := env.Conn(seen[len(seen)-1].Conn)
+			cfc.WaitReaderIdle(grace)
+			time.Sleep(time.Millisecond)
+			cfc.FireReadDeadline()
+			select {
+			case err := <-d2:
+				if err == nil {
+					return hx.Failf("C07/harness", "silent server but the call succeeded")
+				}
+				ended = true
+			case <-time.After(300 * time.Millisecond):
+			}
+		}
+		if !ended {
+			return hx.Failf("C07/call-does-not-return", "read deadlines fired on every connection that carried the query, but the waiting call did not return")
+		}
+		ctx.Nontrivial("reuse-ordering-a")
+		ctx.Nontrivial("reuse-ordering-b")
+		ctx.Sample(map[string]any{"second_exchange_started_while_idle_deadline_pending": returnedEarly, "deadline_after_send": dl.Sub(last).String()})
+		return nil
+	})
 }
